@@ -71,6 +71,8 @@ func (b *Builder) expr1(e ast.Expr) *Term {
 			if id, ok := ast.Unparen(x.Index).(*ast.Ident); ok {
 				if y := b.P.counterLoopBound(b.info.Uses[id]); y != nil {
 					ist.LoopBound = b.expr(y)
+				} else if y := b.P.counterLoopButLast(b.info.Uses[id]); y != nil {
+					ist.LoopBound = b.expr(y)
 				}
 			}
 			b.site(ist)
